@@ -472,7 +472,7 @@ func keyReaderShapeRule(c *Ctx, r *Report, reader *ssa.Function, rule string) {
 			detail = "the decoded text does not come from os.ReadFile of the key path (partial reads accept files with trailing content)"
 			return
 		}
-		if _, isPrm := rc.Call.Args[0].(*ssa.Parameter); !isPrm {
+		if _, isPrm := canon(peel(rc.Call.Args[0])).(*ssa.Parameter); !isPrm {
 			detail = "the file read is not applied to the path parameter itself"
 			return
 		}
@@ -505,6 +505,9 @@ func keyReaderShapeRule(c *Ctx, r *Report, reader *ssa.Function, rule string) {
 
 // samePathExpr: a and b are the same value, or loads of the same variable.
 func samePathExpr(a, b ssa.Value) bool {
+	// (conversions between string and a named string type - `KeyFile(path)`, `string(f)` - and
+	// single-assignment locals do not make another path)
+	a, b = canon(peel(a)), canon(peel(b))
 	if a == b {
 		return true
 	}
